@@ -289,7 +289,7 @@ func (s *smServer) waitFired(n int, d time.Duration) bool {
 
 // newSMServer starts a state machine serving one in-memory connection, through
 // Server.Serve on an in-memory listener (the real accept path).
-func newSMServer(settings *sm.Settings, local string, register func(s *smServer)) *smServer {
+func newSMServer(settings *sm.Settings, local string, register func(s *smServer), dp ...*dict.Parser) *smServer {
 	s := &smServer{SM: sm.New(settings), Conn: memnet.NewConn(), ch: make(chan struct{}, 64), stop: make(chan struct{})}
 	if local != "" {
 		s.Conn.SetLocal(local)
@@ -311,6 +311,9 @@ func newSMServer(settings *sm.Settings, local string, register func(s *smServer)
 	}()
 	ln := memnet.NewListener()
 	srv := &diam.Server{Handler: s.SM}
+	if len(dp) > 0 {
+		srv.Dict = dp[0]
+	}
 	go srv.Serve(ln)
 	ln.Push(s.Conn)
 	go func() {
